@@ -31,8 +31,9 @@ CLAIMED['C01'] = {
     'category': 'proof',
     'text': 'Loop invariants over ghost functions Filt/First/TagsU on the real MerchantEngine.match (any number and order of rules, per-rule outcome '
             'uninterpreted) give the first-match postcondition; least-index, suffix-irrelevance and non-influence lemmas by induction; all VCs discharged. '
-            'normalize_merchant / apply_transforms / legacy CSV loop are covered by the labelled bounded oracle on real rule files.'
-            ' Added after independent bug hunting: apply_transforms under contract (one transform from any state is stored where expressions read the field), the legacy tuple loop of normalize_merchant under contract.',
+            ' Added after independent bug hunting: apply_transforms under contract (one transform from any state is stored where expressions read the field).'
+            ' Added in seeding round 6: the legacy CSV loop of normalize_merchant under contract (loop invariant with a first-matching-categorizing-row ghost over the 7-tuples of get_all_rules; '
+            'what an expression pattern, a regular expression and a modifier mean stays uninterpreted); the cache contracts of parse_expression and regex() (C07) are part of this check.',
     'level_note': _MATCH_NOTE,
     'technique': 'contract-based deductive verification (loop invariants + ghost functions, z3/cvc5) + bounded small-scope oracle for the parts not yet under contract',
 }
@@ -57,7 +58,8 @@ CLAIMED['C07'] = {
     'text': 'Representation invariants of the three process-wide caches (expression cache, regex cache, cached engine) proved as pre/post '
             'conditions of the real parse_expression, TransactionContext._fn_regex and get_all_rules, so by induction over histories every lookup '
             'equals a cold computation; frame clauses (nothing reachable from rules, rows, variables or the transaction is written, evaluator scope is '
-            'per instance, parse() starts from empty state) for 80+ functions by the syntactic back end; history oracle is a labelled extra.',
+            'per instance, parse() starts from empty state) for 80+ functions by the syntactic back end; history oracle is a labelled extra.'
+            ' Added: frames across calls - what a callee writes through a parameter is handed only fresh state or state the caller may itself write (least fixpoint over the six classification modules).',
     'level_note': _BASE_NOTE + ' ast.parse, re.compile, Pattern.search and load_merchants_file are uninterpreted deterministic functions that may raise; '
                   'the structural frame checker is conservative and part of the trusted base.',
     'technique': 'contract-based deductive verification (cache representation invariants by symbolic execution + z3; frame clauses by a syntactic checker) + bounded history oracle',
@@ -69,7 +71,8 @@ CLAIMED['C08'] = {
             'raises (every Exception subclass explored), the public entry points raise at most ExpressionError, and every caller on the classification '
             'and view path (match, _evaluate_*, _resolve_tags, apply_transforms, _resolve_dynamic_tags, normalize_merchant, evaluate_variables, '
             'evaluate_section_filter, classify_merchants) raises nothing, each discharged from callee contracts plus its own handlers. In every item loop of those callers no exception '
-            'leaves the loop body: a failing transform / binding / field / tag / variable / view is skipped and the items after it are still processed.',
+            'leaves the loop body: a failing transform / binding / field / tag / variable / view is skipped and the items after it are still processed.'
+            ' Added: per-iteration contract of _evaluate_let_bindings - a binding that cannot be evaluated leaves its name unbound and changes no other name.',
     'level_note': _BASE_NOTE + ' Values of unknown dynamic type are over-approximated (any operation may raise the operator/lookup errors); '
                   'BaseException-only classes and resource exhaustion are outside the claim.',
     'technique': 'contract-based deductive verification of raises-clauses (symbolic execution with exception outcomes of callees from their contracts) + bounded oracle of failing expressions in every position',
@@ -112,7 +115,7 @@ CLAIMED['C17'] = {
             'with uninterpreted line classifiers: one view per [header] in file order with its own name and line number, recorded only with a non-empty filter, property lines classified on their '
             'stripped text, every rejection a SectionParseError naming the offending line; MerchantEngine.parse (rules files) by a loop invariant as well: _add_rule is called exactly once per [header], in file order, with the header line number, the last open rule is closed at end of file, every rejection is a MerchantParseError naming the line being read or the header of the rejected rule (the content collected for a rule is abstract there: _add_rule contract + oracle). '
             'Whole-file layout / corruption / reporting sentences are exercised by the labelled bounded oracle. One recorded known finding (unloadable file read as empty).'
-            ' Added: MerchantEngine.parse passes over a line in silence only if it is blank or a comment; view names pairwise distinct.',
+            ' Added: MerchantEngine.parse passes over a line in silence only if it is blank or a comment; view names pairwise distinct; _check_merchant_migration hands a .rules file to _report_unloadable_rules before its rules are used, whatever --quiet and --migrate say.',
     'level_note': _BASE_NOTE + ' The per-line regex classifiers are opaque (A6); in the line loop of MerchantEngine.parse() the rule being collected (a dict with a growing key set) is an opaque object: which properties reach _add_rule is covered by syntactic clauses and the bounded oracle.',
     'technique': 'contract-based deductive verification (_add_rule and the line loops of parse_sections and parse by symbolic execution with loop invariants over ghost folds + z3; syntactic information-flow clauses) + bounded metamorphic/corruption oracle',
 }
@@ -165,7 +168,7 @@ CLAIMED['C15'] = {
             'symbolic execution over a ghost file system and checked: no user content lost; the budget classifies with the user\'s rules now or after re-running; never an empty '
             'rule set while the rules are on disk. effective_rules(fs) is the selection function proved for load_config (C11). Start states include budgets that already have target files (a hand-written merchants.rules, an older .bak, a ./tally/ with sub-directories), settings texts that only mention the key, '
             'and the settings update goes through a temporary file and an atomic rename (the torn key line that used to be a recorded finding is repaired). '
-            'Fault injection on real directories is the labelled bounded oracle.',
+            'Buffered writes stay in flight until the file is closed. Fault injection on real directories is the labelled bounded oracle.',
     'level_note': _BASE_NOTE + ' File-system model A9: atomic rename, any prefix of a write may persist, single crash or single fault, paths are atoms; conversion fidelity is C14.',
     'technique': 'contract-based deductive verification over a ghost file system (obligation at every effect boundary of the real functions) + bounded fault-injection oracle on real directories',
 }
